@@ -189,6 +189,12 @@ func TestCheck(t *testing.T) {
 			"lacks a step at any depth below concretely typed fields, elements of typed maps or run-time made structs / a look-alike struct / a value of "+
 			"another type or nil at the end; a nil embedded pointer behind a promoted field; nil in the interface-typed position that feeds the whole input). 40% of the cases get one overlapping declaration; the set without it must compile (else the case is skipped); "+
 			"4% of the others get one path that leaves the declared types (refused by Compile, or every run must return an error). "+
+			"10% of the successors (75% of their predecessors then) come from the array family: structs with array- and slice-typed fields, map[string][2]string, and arrays "+
+			"([2]string, *[2]string, [2]Leaf, [3]int) as the whole input of the successor or the whole output of a predecessor - arrays are moved as values (field, map element, any position, whole input), no path leads into one. "+
+			"Every eighth case is a workflow with one to three nodes (lambda, lambda with the Invoke form only, END) of which at least one has static values and no field mapping that delivers "+
+			"(fed by static values only, waiting for START / a node / a relay node / a branch; or its one mapped predecessor is never selected by a branch), alone and next to ordinary mapped nodes: "+
+			"every node must be handed the zero value of its input type plus its static values (plus what was mapped) in Invoke x3, Stream x2, Transform and Collect; 8% of them carry a static value that "+
+			"does not fit (refused by Compile, or every run returns an error); a quarter get one more static value on an overlapping path (must be refused). "+
 			"Every case is compiled in all declaration orders (<=4 declarations; 24 random orders above), 3x each. Non-trivial = the declaration set overlaps and >=2 "+
 			"orders were compiled, or it does not overlap, was accepted, has >=2 declarations or a nested path, and two accepted orders were "+
 			"each run 3x with Invoke and 7x in stream mode (Stream, Transform, Collect; 3 chunkings; 4x with single chunks when the successor needs one assembled value), "+
@@ -234,9 +240,27 @@ func TestCheck(t *testing.T) {
 	rep.Require("sets_run_with/"+fArrayInput+"/END", int64(cfg.Pick(5, 100)))
 	rep.Require("mappings_run/value-of-array-type/to-field-or-map-element", int64(cfg.Pick(20, 400)))
 
+	rep.Require("static_only/sets_accepted_and_run", int64(cfg.Pick(200, 4000)))
+	rep.Require("static_only/nodes_run/"+clsStaticOnly+"/END", int64(cfg.Pick(20, 400)))
+	rep.Require("static_only/nodes_run/"+clsStaticOnly+"/invoke-only-lambda", int64(cfg.Pick(20, 400)))
+	rep.Require("static_only/nodes_run/"+clsStaticOnly+"/selected-by-a-branch", int64(cfg.Pick(20, 400)))
+	rep.Require("static_only/nodes_run/"+clsStaticOnly+"/input-type-map", int64(cfg.Pick(20, 400)))
+	rep.Require("static_only/nodes_run/"+clsStaticOnly+"/input-type-any", int64(cfg.Pick(5, 100)))
+	rep.Require("static_only/nodes_run/"+clsSkipped, int64(cfg.Pick(30, 600)))
+	rep.Require("static_only/sets_run/one-node-alone", int64(cfg.Pick(50, 1000)))
+	rep.Require("static_only/sets_run/several-nodes", int64(cfg.Pick(50, 1000)))
+	rep.Require("static_only/static_values_on_nested_paths", int64(cfg.Pick(100, 2000)))
+	rep.Require("static_only/node_inputs_equal_to_reference/stream", int64(cfg.Pick(500, 10000)))
+	rep.Require("static_only/overlapping_static_sets_rejected_in_every_order", int64(cfg.Pick(20, 400)))
+
 	ctx := context.Background()
-	n := int64(cfg.Pick(500, 50000))
+	n := int64(cfg.Pick(576, 57600))
 	rep.Cases(n, func(idx int64, rng *mon.Rand) {
+		if idx%8 == 7 {
+			// every eighth case: nodes fed by static values only (static_only_test.go)
+			runStaticCase(ctx, rep, rng, genStaticCase(rng), idx)
+			return
+		}
 		c := genCase(rng)
 		runCase(ctx, rep, rng, c, idx)
 	})
@@ -393,6 +417,9 @@ func runCase(ctx context.Context, rep *mon.Reporter, rng *mon.Rand, c *Case, idx
 	}
 	if sk := c.skipClass(); sk != "" {
 		rep.Count("sets_run_with/"+sk, 1)
+		if len(c.Statics) > 0 && sk == "all-mapped-predecessors-skipped-by-a-branch" {
+			rep.Count("sets_run_with/static-values-and-all-mapped-predecessors-skipped", 1)
+		}
 	} else if c.Gate != nil {
 		rep.Count("sets_run_with/a-branch-that-selects-every-gated-predecessor", 1)
 	}
